@@ -331,7 +331,12 @@ func c26exec(t *testing.T, rng *rand.Rand) *c26result {
 func TestC26(t *testing.T) {
 	r := rt.Start(t, "C26")
 	n := r.N(1500, 30000)
-	r.Each(t, n, 0, nil, func(t *testing.T, c *rt.Case) {
+	ov := c26overlapCases()
+	r.Each(t, n+len(ov), 0, nil, func(t *testing.T, c *rt.Case) {
+		if c.I >= n {
+			c26overlapRun(t, r, c, ov[c.I-n])
+			return
+		}
 		res := c26exec(t, c.Rand())
 		prog, ps, ka, will, evs, expPubs, expSubs, callErrs, hung := res.prog, res.ps, res.ka, res.will, res.evs, res.expPubs, res.expSubs, res.callErrs, res.hung
 		c.Desc = strings.Join(ps, "; ")
@@ -458,7 +463,7 @@ func TestC26(t *testing.T) {
 			r.Sample(map[string]interface{}{"program": ps, "keepalive": ka.String(), "broker_messages": len(order), "trace_head": world.Strings(evs, 30)})
 		}
 	})
-	r.Finish("random legal API programs (5-30 calls: Register, Subscribe string/wildcard/short/predefined QoS 0-2, Publish registered/short/predefined QoS 0-3 with/without retain, Unsubscribe, Ping, Sleep 0.5/1.5/2/20/100 s with broker traffic during the sleep and repeated sleep cycles, Connect back to active, Disconnect) run lock-step by the real client library against the real gateway session and a conforming simulated broker that routes the client's own publishes back to its subscriptions and sends third-party messages (single and bursts of 2-10 on not-yet-registered topics) whenever a current subscription matches; lossless link, virtual time, keep-alive 10 s / 60 s / 1 h, with and without a will. Oracle: every call returns nil; the broker saw one CONNECT with the configured fields, exactly the Publish calls (topic, payload, QoS with -1 -> 0, retain) in order, exactly the SUBSCRIBE/UNSUBSCRIBE filters in order, DISCONNECT iff Disconnect was called; every PUBLISH the broker sent ran a handler of a matching filter with the broker's topic and payload exactly once (QoS 1: at least once) by the end of a 45 s grace period in the active state; no handler ran for anything else. Non-trivial = at least one publish in either direction.", nil)
+	r.Finish("random legal API programs (5-30 calls: Register, Subscribe string/wildcard/short/predefined QoS 0-2, Publish registered/short/predefined QoS 0-3 with/without retain, Unsubscribe, Ping, Sleep 0.5/1.5/2/20/100 s with broker traffic during the sleep and repeated sleep cycles, Connect back to active, Disconnect) run lock-step by the real client library against the real gateway session and a conforming simulated broker that routes the client's own publishes back to its subscriptions and sends third-party messages (single and bursts of 2-10 on not-yet-registered topics) whenever a current subscription matches; lossless link, virtual time, keep-alive 10 s / 60 s / 1 h, with and without a will. Oracle: every call returns nil; the broker saw one CONNECT with the configured fields, exactly the Publish calls (topic, payload, QoS with -1 -> 0, retain) in order, exactly the SUBSCRIBE/UNSUBSCRIBE filters in order, DISCONNECT iff Disconnect was called; every PUBLISH the broker sent ran a handler of a matching filter with the broker's topic and payload exactly once (QoS 1: at least once) by the end of a 45 s grace period in the active state; no handler ran for anything else. Non-trivial = at least one publish in either direction. Second front (client library against a scripted, conforming gateway): two calls on one filter in progress at once - Subscribe+Subscribe, Subscribe+Unsubscribe, Unsubscribe+Subscribe on a named / short / wildcard filter, every accept/refuse combination, acknowledgements in either order, 0 or 1 ms apart; both calls return what their acknowledgement says, and when a subscription exists afterwards a message on the topic runs a callback of an accepted Subscribe.", nil)
 }
 
 func opKind(s string) string {
